@@ -12,7 +12,7 @@ FINDERS = {
     "C15": [("chunk_witness", ["c15"]), ("session_witness", ["c15"])],
     "C19": [("chunk_witness", ["c19"]), ("amf0_witness", ["c12"]), ("session_witness", ["c19"])],
     "C03": [("chunk_witness", ["c06"]), ("chunk_witness", ["c01"]), ("amf0_witness", ["c14"]), ("msg_witness", []), ("hs_witness", ["c05"]), ("session_witness", ["c03"])],
-    "C16": [("c16_interleave", [])],
+    "C16": [("c16_interleave", []), ("chunk_witness", ["c16"])],
     "C04": [("amf0_witness", ["c04"])],
     "C12": [("amf0_witness", ["c12"]), ("amf0_witness", ["c04"])],
     "C14": [("amf0_witness", ["c14"])],
@@ -66,6 +66,11 @@ def find_witness(prop, violations, repo, scratch):
     if not ok: return {"found": False, "note": "replay crate did not build against the tree under test", "cargo": err}
     seed = os.environ.get("VERIF_SEED", "0") or "0"
     tried = []
+    try:
+        known_wm = [e["witness_match"] for e in json.load(open(os.path.join(ROOT, "known_findings.json")))["findings"]
+                    if e.get("property") == prop and e.get("status") == "known" and e.get("witness_match")]
+    except Exception:
+        known_wm = []
     for b, args in finders:
         try:
             p = subprocess.run([exe(scratch, b)] + args + [seed], capture_output=True, text=True, timeout=300)
@@ -73,6 +78,11 @@ def find_witness(prop, violations, repo, scratch):
         except subprocess.TimeoutExpired:
             tried.append({"finder": b, "args": args, "result": "timeout"}); continue
         tried.append({"finder": b, "args": args, "exit": p.returncode, "last_line": out[:1500]})
+        # a finder that is the replay of a LISTED known finding reproducing it is not a new witness (known_findings.json
+        # `witness_match`): record it and go on with the other finders
+        if p.returncode != 0 and any(wm.get("finder") == b and wm.get("line_contains", "") in p.stdout for wm in known_wm):
+            tried[-1]["known_finding_reproduced"] = True
+            continue
         if p.returncode != 0 and ("WITNESS" in p.stdout or "DEFECT-REPRODUCED" in p.stdout):
             return {"found": True, "finder": b, "args": args, "input": out[:3000], "how": "boundary-input enumeration on the real crate against an independent reference codec", "tried": tried}
         if p.returncode not in (0, 1):
